@@ -169,8 +169,12 @@ func Expect(docs []SDoc, fields []string, kind Kind, dv map[string]bool) *Obs {
 			}
 		}
 		// doc values: field-list order, sorted distinct terms
+		docDV := dv
+		if sd.DV != nil {
+			docDV = sd.DV
+		}
 		for _, fname := range fields {
-			if !dv[fname] {
+			if !docDV[fname] {
 				continue
 			}
 			m := perField[fname]
